@@ -13,6 +13,8 @@ pub enum OV {
     Str(String),
     Seq(Vec<OV>),
     Map(Vec<(String, OV)>),
+    /// a value that must never be looked at: converting it panics (used as the value of members that have to be ignored)
+    Poison,
 }
 
 pub struct OVMap(pub Vec<(String, OV)>);
@@ -45,10 +47,12 @@ impl IntoValue for OV {
             OV::Str(_) => ValueKind::String,
             OV::Seq(_) => ValueKind::Sequence,
             OV::Map(_) => ValueKind::Map,
+            OV::Poison => ValueKind::Null,
         }
     }
     fn into_value(self) -> Value<Self> {
         match self {
+            OV::Poison => panic!("the value of an ignored member was converted"),
             OV::Null => Value::Null,
             OV::Bool(b) => Value::Boolean(b),
             OV::Int(x) => Value::Integer(x),
